@@ -111,7 +111,7 @@ func main() {
 		checks.C07Dump(p)
 	case "e1":
 		t0 := time.Now()
-		p, err := load.Load(load.Options{})
+		p, err := load.Load(load.Options{Repo: os.Getenv("JTVERIF_REPO")})
 		if err != nil {
 			fmt.Println("load error:", err)
 			os.Exit(2)
